@@ -75,6 +75,18 @@ impl<D, E> Reader<D, E> {
     }
 }
 
+impl<D, E> Drop for Reader<D, E> {
+    /// Tells the writer the receiver is gone: its next flush fails with `BrokenPipe` rather than
+    /// queueing chunks no one will ever read. Also releases what is already queued.
+    fn drop(&mut self) {
+        let _old; // drop might be slow; release lock first.
+        if let Ok(mut l) = self.shared.lock() {
+            _old = std::mem::replace(&mut l.state, SharedState::ReaderFused);
+            l.waker = None;
+        }
+    }
+}
+
 impl<D, E> futures_core::Stream for Reader<D, E>
 where
     D: From<Vec<u8>>,
